@@ -204,13 +204,21 @@ class Engine:
             x = x.e
         if isinstance(x, (int, bool, str)) or x is None:
             return x
-        v = m.eval(x, model_completion=True)
-        if z3.is_int_value(v):
-            return v.as_long()
-        if z3.is_true(v):
-            return True
-        if z3.is_false(v):
-            return False
+        for attempt in (0, 1):
+            v = m.eval(x, model_completion=True)
+            if not (z3.is_int_value(v) or z3.is_true(v) or z3.is_false(v)):
+                v = z3.simplify(v)
+            if z3.is_int_value(v):
+                return v.as_long()
+            if z3.is_true(v):
+                return True
+            if z3.is_false(v):
+                return False
+            if attempt == 0:
+                # a model object can be left incomplete when a path was cut by the wall-clock watchdog while the solver was
+                # producing it (seen once under load): ask the solver again before giving up
+                self.model = None
+                m = self.ensure_model()
         raise Unsupported(f"cannot read value of {x}")
 
     def assignment(self):
